@@ -164,6 +164,13 @@ static Wire dispatch(const std::string& comp,Reader& r) {
             const ll v = io_op(2,g,k,"r.in");
             return Wire{v,touched("r.in")};
         }
+        case 12: {  // maths::info(r.in) with the current format set to g
+            const size_t g = r.n();
+            if (g>3) throw Reader::Malformed();
+            reset_names();
+            const ll v = guarded([&]() -> ll { maths::MathsIO::SetCurrentFormat(std::string(FMTNAME[g]),false); maths::info("r.in"); return 0; });
+            return Wire{v,touched("r.in")};
+        }
         default: return Wire{-1};
     }
 }
